@@ -54,8 +54,9 @@ OpArgs(s) ==
             keep \in (IF "retain" \in Ops THEN SUBSET KeysOf(s.ord) ELSE {})}
     \cup {OpRec(op, 0, 0, 0, n, {}, <<>>, FALSE) :
             op \in {"reserve", "shrink_to"} \cap Ops, n \in Addl}
-    \cup {OpRec("try_reserve", 0, 0, 0, n, {}, <<>>, fl) :
-            n \in (IF "try_reserve" \in Ops THEN Addl ELSE {}), fl \in BOOLEAN}
+    \cup UNION {{OpRec("try_reserve", 0, 0, 0, n, {}, <<>>, fl) :
+                    fl \in (IF IsBig(n) THEN {FALSE} ELSE BOOLEAN)} :
+                 n \in (IF "try_reserve" \in Ops THEN Addl ELSE {})}
     \cup {OpRec(kind, 0, 0, 0, 0, {}, w, fl) :
             kind \in IterKinds \cap Ops, w \in WordsUpTo(Len(s.ord) + MaxWord),
             fl \in BOOLEAN}
